@@ -49,15 +49,8 @@ Fixpoint null_as_None (t : tree) : bool :=
 (* the two sufficient conditions of C04_docs_none *)
 Definition budget_safe (a b : tree) : bool := text_slack 0 b || (lists_default a && text_slack 4 b).
 
-(* D41 (open): LeafNode.edits(NullNode) is a Match of cost levenshtein(str(x), "None") although a NullNode's total_size is
-   0; under a FixedLengthSequenceEdit of several such pairs (list edits disabled) the children of a FixedKeyDictNodeEdit
-   cost more than its cost_upper_bound, EditCollection.bounds() sets valid = False and answers Range() = (-inf, +inf);
-   TreeNode.diff() then raises ValueError.  Class: the documents hold no multiset, lie OUTSIDE both sufficient conditions
-   (a null-like leaf in the target AND a list without the default options in the source), and some EditCollection object
-   of the run was observed with the bounds (-inf, +inf).  Any other failure of an EditCollection is not in the class. *)
-Definition is_full_range (e : ev) : bool :=
-  match e with EB (NegInf, PosInf) => true | _ => false end.
-Definition collection_invalidated (c : case) : bool :=
-  existsb (fun o => cls_eqb (ot_cls o) CCollection && existsb is_full_range (ot_events o)) (c_objs c).
-Definition kf_collection_budget_C04 (c : case) : bool :=
-  no_mset (c_a c) && no_mset (c_b c) && negb (budget_safe (c_a c) (c_b c)) && collection_invalidated c.
+(* D41 (repaired in the code, a35fb43: LeafNode.edits caps a Match of two leaves by the cost of a Replace) was: a Match
+   x -> null cost levenshtein(str(x), "None") although a NullNode's total_size is 0; under a FixedLengthSequenceEdit of
+   several such pairs the children of a FixedKeyDictNodeEdit cost more than its cost_upper_bound, EditCollection.bounds()
+   set valid = False and answered Range() = (-inf, +inf).  There is no finding class any more: a run in which an
+   EditCollection is observed with the bounds (-inf, +inf) fails holds_C04 (the interval widens) and is a violation. *)
